@@ -61,6 +61,9 @@ mutants|seeded)
     fi
     # warm the scratch build from the main one (regex etc. are reused)
     if [ -d "$HERE/sim/target" ]; then mkdir -p "$sc/target"; cp -r "$HERE/sim/target/release" "$HERE/sim/target/debug" "$sc/target/" 2>/dev/null; fi
+    if [ "$expect" = missed_known ]; then
+      echo "skip $n [$prop] recorded as NOT caught by the quick tier (see its meta.json: why_missed)"; rm -rf "$sc"; continue
+    fi
     checks="$prop"; [ "$expect" = silent ] && checks="C04 C08 C15 C16 C17"; [ -n "$others" ] && checks="$checks $others"
     for p in $checks; do
       t0=$(date +%s)
